@@ -13,12 +13,26 @@
     * `c08_field_matching`  — writer-field loop of `read_record` = the specification's: match by
                               name, else by reader alias, regardless of order; others skipped;
                               the dict-based lookup is the specification's under unambiguous names;
+  PROVED (the decision logic, for every pair of schemas, any nesting, inline or by reference):
+    * `c08_match_eq_spec`   — whenever `match_types` returns, it returns the specification's
+                              "schemas match" (Spec.matchesS): same primitive or promotable; arrays / maps
+                              whose item / value types match; definitions of the same kind whose
+                              unqualified names agree or whose writer name is a reader alias, fixed of the
+                              same size; a name stands for its definition on either side;
+    * `c08_pick_eq_spec`    — the branch of a reader union found through `_reader_branches` and
+                              `match_types` is the branch the specification's rule picks (the writer's
+                              own type first — the one with the writer's full name before namesakes —,
+                              else the first reachable by promotion);
+    hypotheses: the two named-schema tables are what `parse_schema` builds (`EnvWF`: entries are
+    definitions registered under their own full names, no built-in type name is a key) and the schemas
+    are closed in them (`MClosed`);
   NOT YET PROVED (full statement kept visible as `C08_full`): the composition of those steps
   through arrays, maps, records, unions and named types at any depth (`readR = Spec.resolveRead`
   on closed, plain schemas).  That clause is covered by the correspondence/oracle runs only
   (harness/props/c08.py compares implementation, model and specification reader on evolved schemas).
 -/
 import Proofs.Resolve
+import Proofs.ResolveMatch
 
 open Binary Resolve ResolveProofs
 
@@ -54,7 +68,45 @@ theorem c08_field_matching (rd : Schema → Schema → Bytes → R (Val × Bytes
     readFieldsRWith rd sk rfs wfs bs acc = Spec.fieldsWith rd sk rfs wfs bs acc :=
   fields_eq rd sk rfs (findReaderField_eq rfs h) wfs bs acc
 
+open ResolveMatch in
+theorem c08_match_eq_spec (wenv renv : Env) (hwf : EnvWF wenv) (hrf : EnvWF renv) (f : Nat) (w r : Schema) (b : Bool)
+    (hw : MClosed wenv false w) (hr : MClosed renv true r) (h : matchTypes f wenv renv w r = .ok b) :
+    b = Spec.matchesS wenv renv w r :=
+  mt_spec wenv renv hwf hrf f w r b hw hr h
+
+open ResolveMatch in
+theorem c08_pick_eq_spec (wenv renv : Env) (hwf : EnvWF wenv) (hrf : EnvWF renv) (f : Nat) (w : Schema) (rs : List Schema)
+    (o : Option Schema) (hw : MClosed wenv false w) (huw : isList w = false)
+    (hrs : ∀ b ∈ rs, MClosed renv true b ∧ isList b = false)
+    (h : firstMatchWith (matchTypes f wenv renv) w (readerBranches wenv renv w rs) = .ok o) :
+    o = Spec.pickBranch wenv renv w rs :=
+  pick_spec wenv renv hwf hrf f w rs o hw huw hrs h
+
 /-! non-vacuity -/
+open ResolveMatch in
+example : EnvWF [("ns.E", .enum "ns.E" ["A"] none [])] := by
+  constructor
+  · intro n hn
+    simp only [Env.get?]
+    have : ("ns.E" == n) = false := by
+      cases hc : ("ns.E" == n) with
+      | false => rfl
+      | true => simp only [beq_iff_eq] at hc; subst hc; exact absurd hn (by decide)
+    simp [this]
+  · intro n d h
+    simp only [Env.get?] at h
+    split at h
+    · rename_i hk
+      simp only [Option.some.injEq] at h; subst h
+      have : n = "ns.E" := (beq_iff_eq.mp hk).symm
+      subst this
+      exact ⟨rfl, rfl⟩
+    · simp at h
+-- (`#guard`: compiled evaluation; the kernel cannot unfold `String.splitOn` in `unqual`)
+#guard (match matchTypes 3 [("ns.E", .enum "ns.E" ["A"] none [])] [("other.E", .enum "other.E" ["A", "B"] none [])]
+      (.array (.ref "ns.E")) (.array (.ref "other.E")) with
+    | .ok true => true | _ => false)
+
 example : NoPrimKeys [("ns.R", .record "ns.R" [] [])] := by intro p; cases p <;> decide
 example : FieldsUnambiguous [.mk "a" (.prim .int false none) none ["old"], .mk "b" (.prim .int false none) none []] := by
   constructor
